@@ -54,6 +54,12 @@ CHECKS = {
  "C14": dict(level="exploration", design="§3 C14",
    technique="bounded-exhaustive input enumeration with a JSON tree mutator (all single-point mutations; thorough: all pairs) and packet-field menus, delivered to the real transfer stack under recover() from 4 states",
    text="14 seed payloads (every forwarding type x fee shapes, all optional fields) x all ~11000 single-point structural mutations (null/absent/wrong type at every position, null list elements, duplicate and renamed members, unknown siblings, type-URL and enum swaps, byte lengths, integer spellings, out-of-range numbers; thorough: all pairs on W0) plus packet-level menus (denom x amount, receiver x sender encodings, channel identifiers, degenerate and huge memos, all byte strings up to length 2 over 12 symbols), each on W0 and three non-initial states (statistics totals next to 2^256, pauses, deposits+history): no panic, never a nil acknowledgement, and a success acknowledgement only for payloads that are well-formed by the descriptor-driven reference predicate."),
+ "C15": dict(level="exploration", design="§3 C15",
+   technique="bounded-exhaustive enumeration of the public-constructor space (round trip) and of all single-point JSON mutations of a covering subset of serialisations against a descriptor-driven well-formedness predicate; purity by A,B,A parse sequences and fresh parser instances",
+   text="~1300 (thorough ~20000) payloads built through NewCCTPForwarding/NewHyperlaneForwarding/NewInternalForwarding x NewFeeAction lists x 6 passthrough byte strings: Parse(Marshal(p)) equals p in deterministic protobuf encoding and validates. ~29000 single-point mutations (extra/duplicated/renamed members, unknown fields at every level, type-URL and enum swaps, null/absent/wrong types): whenever the module's parser accepts the memo it must be well-formed by the reference predicate evaluated on the generic JSON tree and the protobuf descriptors (single root member, one forwarding with supported id and registered forwarding attribute type, distinct supported action ids with registered action types, no unknown field); duplicated members must be read last-wins by both decoders; re-parsing after other memos and on a fresh parser gives the same payload and touches no state."),
+ "C17": dict(level="model_checking", design="§3 C17",
+   technique="export/import differential on every state of an explicit-state BFS (byte-equal orbiter stores and identical probe behaviour on the re-initialised branch) plus bounded-exhaustive enumeration of a genesis document grammar and of all single-point JSON mutations of an exported genesis (validate => initialise => round-trips)",
+   text="Every distinct state reachable by <=2 (thorough <=3) operations over pauses of protocols/cross-chains/actions, parameter changes, successful and refused transfers on all routes, imported near-maximal statistics and deposits is exported through the module's JSON entry point, validated, re-initialised on an emptied store and re-exported: export validates, InitGenesis does not panic, re-export is byte-equal, the orbiter store is byte-identical and 9 probe transfers give identical acks and final exports. ~3700 grammar documents (all lists of length <=3 of paused ids incl. repeats/invalid, <=2 of cross-chain ids incl. boundary and separator/NUL counterparties, amount x count entry lists incl. same key twice, zero/negative/max values, nil ids) and ~700 JSON mutations: validation accepts => InitGenesis succeeds and the resulting state round-trips."),
 }
 
 NOT_YET = {}
